@@ -89,7 +89,16 @@ def tails(s):
 
 
 def fro(A):
-    return float(np.linalg.norm(np.asarray(A, dtype=float).ravel()))
+    """Frobenius norm, rescaled so that entries beyond 1e+-154 do not overflow / underflow when squared."""
+    A = np.asarray(A, dtype=float).ravel()
+    if A.size == 0:
+        return 0.0
+    m = float(np.max(np.abs(A)))
+    if m == 0.0 or not np.isfinite(m):
+        return m if m == 0.0 else float(np.linalg.norm(A))
+    if 1e-100 < m < 1e100:
+        return float(np.linalg.norm(A))
+    return m * float(np.linalg.norm(A / m))
 
 
 def interface_ref(Y, P=None, i=None, ltr=False):
